@@ -103,6 +103,9 @@ def specStep (cfg : Cfg) (a : Abs) : Op → Abs × Obs
   | .infos token size =>
     let ps := ((a.liveIds.map a.path).filter (fun p => decide (token < p))).mergeSort strLe
     (a, .paths a.liveIds.length (ps.take size))
+  | .info p =>
+    -- the stream the path resolves to reports the (canonical) path it was created under and what is attached to it
+    (a, .sinfo ((a.resolve (canonicalPath cfg p)).map (fun i => (a.path i, ((a.attached i).length : Int)))))
   | .postIdle i => ({ a with tasks := a.tasks ++ [(i, false, false)] }, .unit)
   | .probe i => (a, .probe (decide (i < a.n) && !a.closed i) (a.tasks.filter (fun k => k.1 = i && !k.2.2)).length)
 
